@@ -51,6 +51,21 @@ fn replay(p: &std::path::Path) {
     let rules: Vec<NetworkFilter> = all.iter().filter_map(|l| parse_net(l)).collect();
     let want = spec_verdict(&rules, &tags.iter().cloned().collect(), &req);
     println!("engine(L)={:?}\nengine(L++added)={:?}\nrule-by-rule(L++added)={:?}\nkind={}", v0, v1, want, rp["kind"]);
+    if rp["live"].as_bool().unwrap_or(false) {
+        let base_rules: Vec<NetworkFilter> = base.iter().filter_map(|l| parse_net(l)).collect();
+        let mut b = adblock::blocker::Blocker::new(base_rules, &adblock::blocker::BlockerOptions { enable_optimizations: false });
+        b.use_tags(&tagrefs);
+        for x in extra.iter().filter_map(|l| parse_net(l)) { let _ = b.add_filter(x); }
+        let r3 = b.check(&req, &adblock::resources::ResourceStorage::default());
+        let v3 = V { matched: r3.matched, important: r3.important, exception: r3.exception.is_some(), filter: r3.filter.is_some() };
+        println!("live blocker after add_filter={:?}", v3);
+        let bad = v3 != v1 || match rp["kind"].as_str().unwrap_or("") { "exception_monotone" => v3.matched && !v0.matched, "blocking_monotone" => v0.matched && !v3.matched, _ => false };
+        if bad {
+            println!("VIOLATION property=C04 replay={}", p.display());
+            std::process::exit(1);
+        }
+        return;
+    }
     let bad = match rp["kind"].as_str().unwrap_or("") {
         "exception_monotone" => v1.matched && !v0.matched,
         "blocking_monotone" => v0.matched && !v1.matched,
@@ -188,6 +203,24 @@ fn main() {
                 if bad {
                     sm.failure(None, &format!("{}: engine(L).matched={} engine(L++[{}]).matched={}", kind, got.matched, x, g2.matched),
                         json!({"kind": kind, "rules": lines, "added": [x], "tags": tags, "url": url, "source": src, "type": ty}));
+                }
+                // the same addition on a LIVE blocker (Blocker::add_filter): same monotonicity, and the same
+                // answer as the batch engine over L ++ [x]
+                if !lines.iter().any(|l| l.contains("badfilter")) {
+                    let mut b = adblock::blocker::Blocker::new(rules.clone(), &adblock::blocker::BlockerOptions { enable_optimizations: false });
+                    b.use_tags(tags);
+                    let fresh = !rules.iter().any(|f| f.id == xf.id);
+                    let res = b.add_filter(xf.clone());
+                    let rs = adblock::resources::ResourceStorage::default();
+                    let g3r = b.check(&req, &rs);
+                    let g3 = V { matched: g3r.matched, important: g3r.important, exception: g3r.exception.is_some(), filter: g3r.filter.is_some() };
+                    sm.oracle_evaluations += 1;
+                    cs.stat("live_add_filter");
+                    let bad3 = if kind == "exception_monotone" { g3.matched && !got.matched } else { got.matched && !g3.matched };
+                    if bad3 || g3 != g2 || (fresh && res.is_err()) {
+                        sm.failure(None, &format!("{} through add_filter on a live blocker: before {:?}, after add_filter({}) = {:?} -> {:?}, batch engine over the same rules {:?}", kind, got, x, res, g3, g2),
+                            json!({"kind": kind, "live": true, "rules": lines, "added": [x], "tags": tags, "url": url, "source": src, "type": ty}));
+                    }
                 }
             }
         }
